@@ -6,7 +6,9 @@ reg(Prop(
     [Harness('c11_intrusive', parts=16, thorough_cfg='asan1'),
      # thorough only: the same harness without sanitizer instrumentation under valgrind memcheck (uninitialised reads and
      # leaks that ASan's red zones do not see), on a reduced number of histories
-     Harness('c11_intrusive_memcheck', src=['c11_intrusive.cpp'], cfg='plain', runner='valgrind', tiers=('thorough',), parts=16, args=['--small'])],
+     Harness('c11_intrusive_memcheck', src=['c11_intrusive.cpp'], cfg='plain', runner='valgrind', tiers=('thorough',), parts=16, args=['--small']),
+     # thorough only: the same history runners driven by clang libFuzzer (coverage-guided byte strings instead of the PRNG)
+     Harness('c11_intrusive_fuzz', src=['c11_intrusive.cpp'], cfg='fuzz', runner='libfuzzer', tiers=('thorough',), parts=16, libs=(), fuzz_runs=400000)],
     rule='A case is one seeded history of up to 50 steps (plus a random-order teardown) over 3 individually heap-allocated '
          'intrusive lists and 8 elements (create in list, destroy, unlink, element move construction/assignment between linked and '
          'unlinked elements of the same or different lists incl. adjacent ones, list move construction/assignment from/to empty and '
